@@ -10,7 +10,7 @@ once unless already done") of ``chain_future.copy`` and
 ``multi_future.callback``; every distinct child listened to once; results
 collected in input order; ``WaitIterator`` bookkeeping (FIFO of finished inputs,
 take-and-clear of the running future, one index entry consumed per delivered
-input, one registration per distinct input); ``with_timeout`` shape.  Not
+input); ``with_timeout`` shape.  Not
 decided: the quantifier over completion orders.
 """
 from __future__ import annotations
@@ -22,7 +22,7 @@ from ..cfg import must_facts, holds, canon_fact
 from ..rules import settle_sites, check_settles, event_facts, node_calls, node_assigns, is_none
 from ..mutate import mutate, remove_stmts, replace_expr, replace_stmt, parse_stmt, parse_expr
 from ..model import AnalysisError
-from ..x_sync import own_walk, node_counts, method_call_on, container_uses, exit_states, own_find, own_settle_sites, check_outcome_reads, stable_facts, handler_catches_cancel
+from ..x_sync import check_none_tests, own_walk, node_counts, method_call_on, container_uses, exit_states, own_find, own_settle_sites, check_outcome_reads, stable_facts, handler_catches_cancel
 from .c33 import _drop_done_test, _rename_attr
 from .c34 import check_with_timeout
 
@@ -146,7 +146,6 @@ def check_multi(ck):
         ck.ob("C36.multi-listen", mf, c, len(lp) == 1, "the callback is registered inside the loop over all children, on the loop element")
         # the guard `x not in S` is read off the enclosing if-statements (the must-facts
         # rightly forget it once S.add(x) ran, which is exactly what has to happen before/after registering)
-        seen = []
         pm = q.parent_map(mf.node)
         child = c
         for anc in q.ancestors(pm, c):
@@ -154,19 +153,17 @@ def check_multi(ck):
                 break
             if isinstance(anc, ast.If):
                 in_body = any(child is st_ or any(child is y for y in ast.walk(st_)) for st_ in anc.body)
-                for conj in q.split_conj(anc.test) if in_body else []:
-                    t, pol = canon_fact(conj, True)
-                    if not pol and t.startswith(x + " in "):
-                        seen.append(t)
+                for conj in q.split_conj(anc.test):
+                    t, pol = canon_fact(conj, in_body)
+                    if not t.startswith(x + " in "):
+                        raise AnalysisError("%s: registration guarded by an unrecognised condition" % mf.site(anc.test))
+                    s_ = t[len(x) + 4:]
+                    init = [st for st in q.stores_to(mf.node, s_) if isinstance(getattr(st, "value", None), ast.Call) and q.call_attr(st.value) == "set" and not st.value.args]
+                    if not init:
+                        raise AnalysisError("%s: membership guard on a collection that does not start empty" % mf.site(anc.test))
+                    ck.ob("C36.multi-listen", mf, anc.test, not pol, "a child is skipped only when it was already listened to (`x not in seen` guard on an initially empty set); every first occurrence is registered")
             child = anc
-        ok = False
-        for t in seen:
-            s_ = t[len(x) + 4:]
-            adds = [a for l in lp for st in l.ast.body for a in ast.walk(st) if method_call_on(a, s_, "add") and len(a.args) == 1 and q.dotted(a.args[0]) == x]
-            init = [st for st in q.stores_to(mf.node, s_) if isinstance(getattr(st, "value", None), ast.Call) and q.call_attr(st.value) == "set" and not st.value.args]
-            if adds and init:
-                ok = True
-        ck.ob("C36.multi-listen", mf, c, ok, "a child is listened to only if it was not seen before, and is then recorded as seen (duplicates are listened to once, matching the set of unfinished children)")
+    ck.note("multi_future's seen-set makes duplicated children harmless; this is outside the property (a *set* of inputs) and therefore not required by a rule")
     # loop cannot skip children
     from .c34 import _leaves_loop
     for l in loops:
@@ -315,7 +312,34 @@ def check_wait_iterator(ck):
             ck.ob("C36.waititer", nxt, nd.ast, method_call_on(a0, FIN, "popleft") and holds(facts[nd.id], FIN, True), "a queued finished input is delivered first, oldest first")
         else:
             ck.ob("C36.waititer", nxt, nd.ast, q.dotted(v) == RUN and holds(facts[nd.id], FIN, False), "otherwise next() returns the pending running future")
-    # registration: one callback per *distinct* input (the index table is keyed by future)
+    # done(): True only when nothing is queued and nothing is outstanding
+    dn = ck.func(G, W + ".done")
+    dfacts = must_facts(dn.cfg)
+    k = 0
+    for nd in dn.cfg.stmt_nodes(lambda nd: nd.kind == "stmt" and isinstance(nd.ast, ast.Return)):
+        v = nd.ast.value
+        if q.is_const(v, True):
+            k += 1
+            ck.ob("C36.waititer", dn, nd.ast, holds(dfacts[nd.id], FIN, False) and holds(dfacts[nd.id], UNF, False), "done() is True only when no finished input is queued and no input is outstanding (every input is yielded)")
+        elif not q.is_const(v, False):
+            raise AnalysisError("%s: done() returns a non-literal" % dn.site(nd.ast))
+    ck.floor("C36.waititer", k, 1, "`return True` in done()")
+    # index table: each input future maps to its own position / keyword
+    tables = [st for st in q.stores_to(init.node, UNF) if isinstance(getattr(st, "value", None), ast.DictComp)]
+    ck.floor("C36.waititer", len(tables), 2, "index tables in WaitIterator.__init__")
+    a_ = init.node.args
+    for st in tables:
+        dc = st.value
+        g = dc.generators[0] if len(dc.generators) == 1 else None
+        ok = False
+        if g is not None and isinstance(g.target, ast.Tuple) and len(g.target.elts) == 2 and all(isinstance(e, ast.Name) for e in g.target.elts) and not g.ifs:
+            first, second = g.target.elts[0].id, g.target.elts[1].id
+            if q.is_call(g.iter, "enumerate") and len(g.iter.args) == 1 and a_.vararg and q.dotted(g.iter.args[0]) == a_.vararg.arg:
+                ok = q.dotted(dc.key) == second and q.dotted(dc.value) == first  # {f: i for i, f in enumerate(args)}
+            elif isinstance(g.iter, ast.Call) and isinstance(g.iter.func, ast.Attribute) and g.iter.func.attr == "items" and a_.kwarg and q.dotted(g.iter.func.value) == a_.kwarg.arg:
+                ok = q.dotted(dc.key) == second and q.dotted(dc.value) == first  # {f: k for k, f in kwargs.items()}
+        ck.ob("C36.waititer", init, st, ok, "the index table maps each input future to its own position (enumerate(args), from 0) or keyword (kwargs.items())")
+    # registration: the callback is registered on every input
     loops = [nd for nd in init.cfg.stmt_nodes(lambda nd: nd.kind == "for") if isinstance(nd.ast.target, ast.Name)]
     regs = []
     for nd in loops:
@@ -323,25 +347,74 @@ def check_wait_iterator(ck):
             if isinstance(y, ast.Call) and q.call_attr(y) in ("future_add_done_callback", "add_done_callback") and any(q.dotted(a) == "self._done_callback" for a in y.args):
                 regs.append((nd, y))
     ck.floor("C36.waititer", len(regs), 1, "callback registrations in WaitIterator.__init__")
-    keyed = [s for s in q.stores_to(init.node, UNF) if isinstance(getattr(s, "value", None), ast.DictComp)]
     for nd, y in regs:
-        it = nd.ast.iter
         x = nd.ast.target.id
         on = q.dotted(y.args[0]) if q.call_attr(y) == "future_add_done_callback" else q.receiver(y)
         ck.ob("C36.waititer", init, y, on == x, "the callback is registered on the loop element")
-        body_guard = [t for t in ast.walk(nd.ast) if isinstance(t, ast.Compare) and len(t.ops) == 1 and isinstance(t.ops[0], ast.NotIn) and q.dotted(t.left) == x]
-        distinct = (q.dotted(it) == UNF or method_call_on(it, UNF, "keys") or q.is_call(it, "set", "frozenset") or (isinstance(it, ast.Call) and q.dotted(it.func) == "dict.fromkeys") or bool(body_guard))
-        if distinct:
-            ck.ob("C36.waititer-distinct", init, it, True, "each distinct input is listened to once")
-            continue
-        src = q.dotted(it)
-        srcs = [s for s in q.stores_to(init.node, src)] if src else []
-        plain = src is not None and srcs and all(isinstance(s, (ast.Assign, ast.AnnAssign)) and (q.dotted(s.value) in init.params() or (q.is_call(s.value, "list") and s.value.args and isinstance(s.value.args[0], ast.Call) and q.call_attr(s.value.args[0]) == "values")) for s in srcs)
-        if not (plain and len(keyed) >= 1 and len(keyed) == len(q.stores_to(init.node, UNF))):
-            raise AnalysisError("%s: registration loop / index table in an unrecognised shape" % init.site(it))
-        ck.ob("C36.waititer-distinct", init, it, False,
-              "each distinct input must be listened to once: the index table %s is keyed by future (one entry per distinct input, consumed per delivery) but the callback is registered once per occurrence in %s" % (UNF, src),
-              construct="for v0 in %s: register(v0) vs index keyed by future" % src)
+        from .c34 import _leaves_loop
+        ck.ob("C36.waititer", init, nd.ast.iter, not _leaves_loop(nd.ast), "the registration loop visits every input")
+    ck.note("observation (outside the property, which quantifies over a *set* of inputs): WaitIterator registers its callback once per occurrence but indexes by future, "
+            "so a duplicated input (WaitIterator(f, f)) is delivered twice and the second delivery raises KeyError from _unfinished.pop; multi_future guards the same situation with a seen-set")
+
+
+def _last_def(ck, rel, name):
+    m = ck.repo.module(rel)
+    keys = [k for k in m.funcs if k == name or k.startswith(name + "#")]
+    if not keys:
+        raise AnalysisError("function %s not found in %s" % (name, rel))
+    return ck.use(m.funcs[sorted(keys, key=lambda k: int(k.split("#")[1]) if "#" in k else 1)[-1]])
+
+
+def _in_last(rel, name, edit):
+    def find(tree):
+        defs = [n for n in tree.body if isinstance(n, q.FuncNode) and n.name == name]
+        return edit(defs[-1]) if defs else False
+    return lambda repo: mutate(repo, rel, None, find)
+
+
+def check_helpers(ck):
+    """concurrent.py helpers every combinator relies on."""
+    for name, meth in (("future_set_result_unless_cancelled", "set_result"), ("future_set_exception_unless_cancelled", "set_exception")):
+        fi = ck.func(C, name)
+        fp, vp = fi.params()[0], fi.params()[1]
+        sets_ = own_find(fi, lambda x: method_call_on(x, fp, meth))
+        sc = node_counts(fi, lambda x: any(x is c for _, c in sets_))
+        canf = "%s.cancelled()" % fp
+
+        def edge(nd, kind, v, canf=canf):
+            k, can = v
+            if nd.kind == "test" and kind in ("true", "false"):
+                t, pol = canon_fact(nd.ast, kind == "true")
+                if t == canf:
+                    can = pol
+            return (k, can)
+
+        normal, _ = exit_states(fi.cfg, (0, None), lambda nd, v, sc=sc: (min(2, v[0] + sc.get(nd.id, 0)), v[1]), edge_transfer=edge, follow_exc=False)
+        for _f, (k, can) in normal:
+            if can is None:
+                ck.ob("C36.helpers", fi, fi.node, False, "%s decides by future.cancelled() whether to settle" % name, construct="exit without cancelled() test settles=%d" % k)
+                continue
+            ck.ob("C36.helpers", fi, fi.node, k == (0 if can else 1), "%s settles the future exactly when it is not cancelled (cancelled=%s settles=%d)" % (name, can, k), construct="exit cancelled=%s settles=%d" % (can, k))
+        for _n, c in sets_:
+            ck.ob("C36.helpers", fi, c, len(c.args) == 1 and q.dotted(c.args[0]) == vp, "%s passes its value on unchanged" % name)
+    ei = ck.func(C, "future_set_exc_info")
+    fp, ip = ei.params()[0], ei.params()[1]
+    cs = [c for c in own_walk(ei.node) if q.is_call(c, "future_set_exception_unless_cancelled")]
+    ok = len(cs) == 1 and q.dotted(cs[0].args[0]) == fp and isinstance(cs[0].args[1], ast.Subscript) and q.dotted(cs[0].args[1].value) == ip and q.is_const(cs[0].args[1].slice, 1)
+    ck.ob("C36.helpers", ei, ei.node, ok, "future_set_exc_info stores exc_info[1] (the exception instance) through the cancellation-aware setter", construct="exc_info forwarding")
+    ad = _last_def(ck, C, "future_add_done_callback")  # defined three times: two @overload stubs, then the implementation
+    fp, cp = ad.params()[0], ad.params()[1]
+    direct = own_find(ad, lambda x: isinstance(x, ast.Call) and q.dotted(x.func) == cp)
+    reg = own_find(ad, lambda x: method_call_on(x, fp, "add_done_callback"))
+    dc, rc = node_counts(ad, lambda x: any(x is c for _, c in direct)), node_counts(ad, lambda x: any(x is c for _, c in reg))
+    normal, _ = exit_states(ad.cfg, (0, 0), lambda nd, v: (min(2, v[0] + dc.get(nd.id, 0)), min(2, v[1] + rc.get(nd.id, 0))), follow_exc=False)
+    for _f, (d, r) in normal:
+        ck.ob("C36.helpers", ad, ad.node, d + r == 1, "future_add_done_callback either calls back at once or registers, exactly once (called=%d registered=%d)" % (d, r), construct="exit called=%d registered=%d" % (d, r))
+    fa = must_facts(ad.cfg)
+    for nd, c in direct:
+        ck.ob("C36.helpers", ad, c, holds(fa[nd.id], "%s.done()" % fp, True) and len(c.args) == 1 and q.dotted(c.args[0]) == fp, "the immediate call happens only for a finished future, with that future")
+    for nd, c in reg:
+        ck.ob("C36.helpers", ad, c, len(c.args) == 1 and q.dotted(c.args[0]) == cp, "the caller's callback is what gets registered")
 
 
 def check_error_callback(ck, wt):
@@ -357,17 +430,25 @@ def run(ck):
     ck.rule("C36.settle", "every settle of an output future is under `not F.done()` or on a future created in the same function")
     ck.rule("C36.chain", "chain_future registers copy once on the source; copy settles/cancels the target exactly once unless it was done, with the source's own result/exception; an explicit cancelled path acts on the target")
     ck.rule("C36.multi", "multi_future: fresh output; settled by itself only for empty input; callback removes its child, settles the output only after the last child, and then always leaves it done")
-    ck.rule("C36.multi-listen", "each distinct child is listened to exactly once (seen-set guard inside the loop over all children)")
+    ck.rule("C36.multi-listen", "every child is listened to: the callback is registered in a loop over all children that visits every element, skipping only already-seen ones")
     ck.rule("C36.multi-order", "results are read from the ordered child list, appended in order; dict outputs zip list(children.keys()) with the result list")
     ck.rule("C36.waititer", "WaitIterator: finished inputs queued/delivered FIFO; one of deliver/queue per finished input; _return_result chains, consumes one index entry, takes-and-clears the running future; next() installs a fresh running future")
-    ck.rule("C36.waititer-distinct", "WaitIterator registers its callback once per distinct input (the index table has one entry per distinct input)")
+    ck.rule("C36.none-test", "optional values with legal falsy values (an exception object returned by exception(), the key list of a dict input) are compared with None by identity, never by truthiness")
+    ck.rule("C36.helpers", "the concurrent.py primitives the combinators rely on: *_unless_cancelled settle exactly when not cancelled; future_set_exc_info forwards exc_info[1]; future_add_done_callback calls at once only for a finished future, otherwise registers, exactly once")
     ck.rule("C36.with-timeout", "with_timeout chains input->result once, arms one timer with the timeout; the timer callback fails only a pending result, with TimeoutError")
 
     check_chain(ck)
+    check_helpers(ck)
     check_multi(ck)
     check_wait_iterator(ck)
     wt, _src, _res = check_with_timeout(ck, R="C36.with-timeout", RS="C36.settle")
     check_error_callback(ck, wt)
+    cf = ck.func(C, "chain_future")
+    n = sum(check_none_tests(ck, "C36.none-test", ck.use(nf)) for nf in ck.repo.nested(cf) if nf.parent is cf)
+    ck.floor("C36.none-test", n, 1, "None tests on the source's exception() in chain_future.copy")
+    mf = ck.func(G, "multi_future")
+    n = check_none_tests(ck, "C36.none-test", mf) + sum(check_none_tests(ck, "C36.none-test", ck.use(nf)) for nf in ck.repo.nested(mf) if nf.parent is mf and isinstance(nf.node, q.FuncNode))
+    ck.floor("C36.none-test", n, 2, "None tests on the key list in multi_future")
 
 
 # ---------------------------------------------------------------------------
@@ -398,11 +479,19 @@ def _narrow_cancel_handler(root):
 
 
 MUTANTS = [
+    ("WaitIterator.done() ignores inputs that finished but were not yet delivered", _in(G, "WaitIterator.done", replace_expr(lambda n: isinstance(n, ast.BoolOp) and isinstance(n.op, ast.Or), lambda n: n.values[1])), "C36.waititer"),
+    ("WaitIterator numbers positional inputs from 1", _in(G, "WaitIterator.__init__", replace_expr(lambda n: q.is_call(n, "enumerate"), lambda n: ast.Call(func=n.func, args=n.args + [ast.Constant(value=1)], keywords=[]))), "C36.waititer"),
+    ("future_set_result_unless_cancelled skips finished-but-not-cancelled... tests done() instead of cancelled()", _in(C, "future_set_result_unless_cancelled", _rename_attr("cancelled", "done")), "C36.helpers"),
+    ("future_add_done_callback registers even when it already called back", _in_last(C, "future_add_done_callback", lambda root: _drop_else(root)), "C36.helpers"),
+    ("future_set_exc_info stores the exception class instead of the instance", _in(C, "future_set_exc_info", replace_expr(lambda n: isinstance(n, ast.Subscript) and isinstance(n.slice, ast.Constant) and n.slice.value == 1 and isinstance(n.ctx, ast.Load), lambda n: ast.Subscript(value=n.value, slice=ast.Constant(value=0), ctx=ast.Load()), limit=2)), "C36.helpers"),
+    ("copy tests the source's exception by truthiness (`if a_exc:`, seeded C36-adv1)", _in(C, "chain_future.<locals>.copy", replace_expr(lambda n: isinstance(n, ast.Compare) and isinstance(n.ops[0], ast.IsNot) and isinstance(n.left, ast.Name), lambda n: n.left)), "C36.none-test"),
+    ("multi of an empty dict resolves to a list (`if keys:` in the callback/empty path)", _in(G, "multi_future", replace_expr(lambda n: isinstance(n, ast.Compare) and isinstance(n.ops[0], ast.IsNot) and ast.unparse(n.left) == "keys", lambda n: n.left, limit=3)), "C36.none-test"),
     ("copy overwrites a finished target (done() guard removed)", _in(C, "chain_future.<locals>.copy", _drop_early_return), ("C36.settle", "C36.chain")),
     ("copy forgets to copy a plain result", _in(C, "chain_future.<locals>.copy", replace_stmt(lambda st: isinstance(st, ast.Expr) and "set_result" in ast.unparse(st), lambda st: [ast.Pass()])), "C36.chain"),
     ("copy settles the source instead of the target", _in(C, "chain_future.<locals>.copy", replace_expr(lambda n: isinstance(n, ast.Call) and isinstance(n.func, ast.Attribute) and n.func.attr == "set_exception", lambda n: ast.Call(func=ast.Attribute(value=ast.Name(id="a", ctx=ast.Load()), attr="set_exception", ctx=ast.Load()), args=n.args, keywords=[]))), ("C36.chain", "C36.settle")),
     ("chain_future listens on the target", _in(C, "chain_future", replace_expr(lambda n: q.is_call(n, "future_add_done_callback"), lambda n: ast.Call(func=n.func, args=[ast.Name(id="b", ctx=ast.Load()), n.args[1]], keywords=[]))), "C36.chain"),
-    ("multi listens to duplicates twice (seen-set guard removed)", _in(G, "multi_future", replace_expr(lambda n: isinstance(n, ast.Compare) and isinstance(n.ops[0], ast.NotIn), lambda n: ast.Constant(value=True))), "C36.multi-listen"),
+    ("multi never listens (seen-set guard inverted)", _in(G, "multi_future", replace_expr(lambda n: isinstance(n, ast.Compare) and isinstance(n.ops[0], ast.NotIn), lambda n: ast.Compare(left=n.left, ops=[ast.In()], comparators=n.comparators))), "C36.multi-listen"),
+    ("multi listens only to the first child (break after registering)", _in(G, "multi_future", replace_stmt(lambda st: isinstance(st, ast.Expr) and "future_add_done_callback" in ast.unparse(st), lambda st: [st, ast.Break()])), "C36.multi-listen"),
     ("multi reads results from the set (arbitrary order)", _in(G, "multi_future.<locals>.callback", replace_expr(lambda n: isinstance(n, ast.Name) and n.id == "children_futs" and isinstance(n.ctx, ast.Load), lambda n: ast.Name(id="listening", ctx=ast.Load()))), "C36.multi-order"),
     ("multi settles on the first finished child", _in(G, "multi_future.<locals>.callback", replace_expr(lambda n: isinstance(n, ast.UnaryOp) and isinstance(n.op, ast.Not) and q.dotted(n.operand) == "unfinished_children", lambda n: ast.Constant(value=True))), "C36.multi"),
     ("multi overwrites an already failed output (final done() guard removed)", _in(G, "multi_future.<locals>.callback", replace_expr(lambda n: isinstance(n, ast.UnaryOp) and isinstance(n.op, ast.Not) and "future.done()" in ast.unparse(n), lambda n: ast.Constant(value=True))), ("C36.settle", "C36.multi")),
@@ -411,7 +500,6 @@ MUTANTS = [
     ("(after the F22a fix) copy's CancelledError handler narrowed back to Exception", _in(C, "chain_future.<locals>.copy", _narrow_cancel_handler), "C36.cancel-aware"),
     ("(after the F22a fix) copy loses its cancelled() branch again", _in(C, "chain_future.<locals>.copy", replace_stmt(lambda st: isinstance(st, ast.If) and ast.unparse(st.test).endswith(".cancelled()") and st.orelse, lambda st: st.orelse)), "C36.cancel-aware"),
     ("(after the F22a fix) copy drops the cancelled() branch's action", _in(C, "chain_future.<locals>.copy", replace_stmt(lambda st: isinstance(st, ast.Expr) and "b.cancel()" in ast.unparse(st), lambda st: [ast.Pass()])), "C36.chain"),
-    ("(after the F29 fix) WaitIterator registers per occurrence again", _in(G, "WaitIterator.__init__", lambda root: _iterate_plain(root)), "C36.waititer-distinct"),
     ("with_timeout's error callback lets CancelledError escape", _in(G, "with_timeout.<locals>.error_callback", _narrow_cancel_handler), "C36.cancel-aware"),
     ("with_timeout fails an already finished result (guard removed)", _in(G, "with_timeout.<locals>.timeout_callback", _drop_done_test), ("C36.settle", "C36.with-timeout")),
     ("with_timeout does not chain the input", _in(G, "with_timeout", remove_stmts(lambda st: isinstance(st, ast.Expr) and "chain_future" in ast.unparse(st))), "C36.with-timeout"),
@@ -435,9 +523,12 @@ def _move_clear_first(root):
     return False
 
 
-def _iterate_plain(root):
-    for n in ast.walk(root):
-        if isinstance(n, ast.For) and "_done_callback" in ast.unparse(n) and ast.unparse(n.iter) != "futures":
-            n.iter = ast.Name(id="futures", ctx=ast.Load())
+
+def _drop_else(root):
+    for st in root.body:
+        if isinstance(st, ast.If) and st.orelse:
+            i = root.body.index(st)
+            root.body[i + 1:i + 1] = st.orelse
+            st.orelse = []
             return True
     return False
